@@ -90,6 +90,7 @@ def run(ctx):
         return "%s %s" % (gsrc.get(g, "?"), s)
 
     viol = []
+    prec_lost = [0]
     for line in out.split("\n"):
         if not line.strip():
             continue
@@ -124,14 +125,16 @@ def run(ctx):
                 gram["completeOK"] = gram.get("completeOK", 0) + 1
             elif cpl.startswith("false"):
                 gram["completeOK_fails"] = gram.get("completeOK_fails", 0) + 1
-            # Grammars the generator accepted without any precedence annotation are LR(1) conflict-free, so
-            # when grammar.json is covered by the canonical productions the table must be complete for them;
+            # Grammars the generator accepted without any precedence annotation and whose table has no cell
+            # with several actions (a repetition conflict, e.g. two adjacent repeats of the same content,
+            # is kept in the cell and settled at run time) are LR(1) conflict-free, so when grammar.json
+            # is covered by the canonical productions the table must be complete for them;
             # the chain / lalr families are built to be in that class, so they must also be covered.
             by_construction = fam in ("chain", "lalr")
-            if kv.get("kind") == "cfg" and cov != "na" and ((cov == "true" and kv.get("prec") == "false") or by_construction):
+            if kv.get("kind") == "cfg" and cov != "na" and ((cov == "true" and kv.get("prec") == "false" and kv.get("multi") == "0") or by_construction):
                 gram["complete_in_scope"] = gram.get("complete_in_scope", 0) + 1
                 if cpl != "true" or (by_construction and cov != "true"):
-                    viol.append((0, "judge", "the generated table of %s (LR(1) conflict-free: accepted by the generator without precedence) fails the premises of parser_complete: cover=%s complete=%s" % (g, cov, cpl),
+                    viol.append((0, "judge", "the generated table of %s (LR(1) conflict-free: accepted by the generator without precedence, one action per cell) fails the premises of parser_complete: cover=%s complete=%s" % (g, cov, cpl),
                                  {"case": g, "spec": "%s t:" % src, "result": kv},
                                  {"clause": "table-incomplete-for-its-grammar", "kind": fam}, True))
             if kv["closed"] == "true":
@@ -177,7 +180,13 @@ def run(ctx):
         # is a member by construction: it must be accepted, whatever its length (completeness of the
         # LR construction beyond the exhaustive bound; the derivation generator in the harness is the
         # oracle for THIS clause only and is listed in the trusted base)
-        if judge == "ok" and re.search(r"-d\d+$", cid) and kv.get("err") == "1" and case_str.get(cid, ("", ""))[1].startswith("t:"):
+        is_sentence = bool(re.search(r"-d\d+$", cid)) and case_str.get(cid, ("", ""))[1].startswith("t:")
+        if kv.get("precloss") == "1" and (kv.get("member") == "1" or is_sentence):
+            # a member rejected by a random CFG with precedence annotations that is not validated for
+            # completeness, on a run that passes a state with an unvalidated item: static conflict
+            # resolution (by design) – counted, not judged
+            prec_lost[0] += 1
+        elif judge == "ok" and is_sentence and kv.get("err") == "1":
             judge = "FAIL generated-sentence-rejected(has_error=true);"
         if kv["corr"] != "skip":
             corr_cmp += 1
@@ -220,6 +229,7 @@ def run(ctx):
                      "language_sizes_up_to_L": sorted(gram["lang_sizes"])[-8:], "generator": stats},
         "by_grammar_kind": kinds, "model_driver_outcomes": drv, "membership": member, "derivation_checked": deriv,
         "token_string_lengths": lens,
+        "members_rejected_after_precedence_resolved_conflict(random CFGs with precedence, not validated complete; not judged)": prec_lost[0],
         "correspondence": {"compared": corr_cmp, "equal": corr_cmp - corr_bad},
         "judge": {"evaluated": judge_eval, "passed": judge_eval - judge_bad},
         "impl_vs_judge_failures": judge_bad, "model_vs_impl_disagreements": corr_bad,
